@@ -49,8 +49,17 @@ out.append("Candidates rejected by the existing test suite (so not usable as \"p
 out.append("")
 out.append("Misses in the first catalogue run and what was changed (all detected now): `array-get-tolerates-extra-argument` (C10 had no surplus-argument fault for built-in get/set: three fault classes added), `interpreter-error-swallowed-in-execute` (C10 only used `fml run`: every 7th injection now goes through `fml execute`), `long-strings-truncated-length` and `class-members-beyond-255-dropped` (model generator had no string >= 64 KiB and no pool > 32767 entries: both added, the huge pool with a deterministic bulk because a 900-byte tape cannot drive 33k choices), `explicit-input-format-ignored-when-extension-known` (C06 had no configuration with a misleading extension: added), `print-buffer-bypassed-for-plain-text` (C10's failing prints were ASCII only: now non-ASCII).")
 out.append("")
-out.append("### 8.2 Independently seeded changes (`seeded/<ID>-a/`)\n")
+out.append("### 8.2 Independently seeded changes (`seeded/<ID>-<round>/`)\n")
 out.append("Written by fresh sub-agents that saw only the text of one property and a scratch worktree of FML (nothing from /verif). Each was confirmed by `tools/verify_seed.sh` (applies, 259 tests pass, release build, demo exits 0 without / 1 with the change) and then run through `./selftest.sh`.\n")
+import collections
+rounds=collections.defaultdict(lambda:[0,0])
+for d in sorted(glob.glob(f"{V}/seeded/*/meta.json")):
+    m=json.load(open(d)); suf=os.path.basename(os.path.dirname(d)).split('-')[1]
+    own=m['results'].get(m['property'],'')
+    rounds[suf][0]+=1
+    if 'first version' in own or own.lower().startswith('detected after') or own.lower().startswith('missed'):
+        rounds[suf][1]+=1
+out.append("Rounds: " + "; ".join(f"-{k}: {v[0]} changes, {v[1]} not caught by the owning check as it was then (each led to the strengthening named in its row; all are caught now)" for k,v in sorted(rounds.items())) + ". The owning check is the one for the property the sub-agent was given; other checks that were tried are listed as well, a miss by a non-owner is not a defect of that check.\n")
 out.append("| seed | what it needs to manifest | checks (quick tier) |")
 out.append("|---|---|---|")
 for d in sorted(glob.glob(f"{V}/seeded/*/meta.json")):
